@@ -846,6 +846,18 @@ func c20TeeSplit(c *Ctx, r *Report) {
 					okCopy = isCopyOf(arg, in) || phiCopyWhenForwarded(arg, in)
 				}
 				isClose := (call.Call.IsInvoke() && call.Call.Method.Name() == "Close") || strings.HasSuffix(CalleeName(&call.Call), ".Close")
+				// or a method of the same verb that does the closing
+				if sc := call.Call.StaticCallee(); !isClose && sc != nil && sc.Pkg == f.Pkg && sc.Blocks != nil && sc.Signature.Recv() != nil {
+					for _, b2 := range sc.Blocks {
+						for _, in2 := range b2.Instrs {
+							if c2, ok := in2.(*ssa.Call); ok {
+								if (c2.Call.IsInvoke() && c2.Call.Method.Name() == "Close") || strings.HasSuffix(CalleeName(&c2.Call), ".Close") {
+									isClose = true
+								}
+							}
+						}
+					}
+				}
 				if isClose {
 					for _, g := range GuardsAt(b) {
 						if _, name, ok := fieldLoadName(g.Cond); ok && name == "EndOfStream" && g.Polarity {
